@@ -401,6 +401,16 @@ Section Monitors.
   Definition min_acc : option T :=
     fold_left (fun m sx => match m with None => Some (snd sx) | Some y => if flt (snd sx) y then Some (snd sx) else Some y end)
               acc_vals None.
+  (** the run neither hung inside a poll nor stalled: a poll that ends Pending with nothing in
+      flight (nothing the harness could still complete) can never make progress again *)
+  Fixpoint stalled (l : list ev) (live : N) : bool :=
+    match l with
+    | [] => false
+    | EStart _ _ _ :: t => stalled t (live + 1)
+    | EReturned _ _ :: t => stalled t (live - 1)
+    | EPending :: t => N.eqb live 0 || stalled t live
+    | _ :: t => stalled t live
+    end.
   (** target: the turn that completes a sample whose mean meets the target must be the last one
       (checked only while no eviction can have happened: at most [max_pop_size] individuals accepted) *)
   Fixpoint walk_target (l : list ev) (accs : list (N * T)) (hit_seen : bool) : bool :=
@@ -428,7 +438,7 @@ Section Monitors.
     end.
 
   Definition mon_C04 : bool :=
-    negb hung && walk_target es [] false &&
+    negb hung && negb (stalled es 0) && walk_target es [] false &&
     no_start_after (fun e => match e with ETerminate => true | _ => false end) es &&
     match final, ro_target o with
     | Some (OROk b _ _ _), Some t =>
@@ -521,7 +531,7 @@ Section Monitors.
     end.
 
   (** C15 (controller part): the run ended, or is still going, but never hung *)
-  Definition mon_C15 : bool := negb hung.
+  Definition mon_C15 : bool := negb hung && negb (stalled es 0).
 End Monitors.
 
 (** ** verdict line *)
